@@ -228,6 +228,22 @@ func normalizeConstraints[V univers.Version[V], VR univers.VersionRange[V]](
 	return sorted, nil
 }
 
+// matchesAll reports whether the constraints are the special "*" (match all versions):
+// there is a star and all other constraints are empty after trimming.
+func matchesAll(constraints []string) bool {
+	hasStarConstraint := false
+	hasNonEmptyNonStarConstraint := false
+	for _, c := range constraints {
+		trimmed := strings.TrimSpace(c)
+		if trimmed == "*" {
+			hasStarConstraint = true
+		} else if trimmed != "" {
+			hasNonEmptyNonStarConstraint = true
+		}
+	}
+	return hasStarConstraint && !hasNonEmptyNonStarConstraint
+}
+
 // contains implements VERS constraint checking for a given ecosystem.
 func contains[V univers.Version[V], VR univers.VersionRange[V]](
 	e univers.Ecosystem[V, VR],
@@ -238,6 +254,11 @@ func contains[V univers.Version[V], VR univers.VersionRange[V]](
 	v, err := e.NewVersion(version)
 	if err != nil {
 		return false, fmt.Errorf("invalid %s version '%s': %w", e.Name(), version, err)
+	}
+
+	// "*" matches every valid version of the scheme
+	if matchesAll(constraints) {
+		return true, nil
 	}
 
 	constraints, err = normalizeConstraints(e, constraints)
@@ -479,23 +500,6 @@ func Contains(versRange, version string) (bool, error) {
 	constraintsStr := parts[1]
 
 	constraints := strings.Split(constraintsStr, "|")
-
-	// Handle special constraints like "*" (match all versions)
-	// Check if there's a star and all other constraints are empty after trimming
-	hasStarConstraint := false
-	hasNonEmptyNonStarConstraint := false
-	for _, c := range constraints {
-		trimmed := strings.TrimSpace(c)
-		if trimmed == "*" {
-			hasStarConstraint = true
-		} else if trimmed != "" {
-			hasNonEmptyNonStarConstraint = true
-		}
-	}
-
-	if hasStarConstraint && !hasNonEmptyNonStarConstraint {
-		return true, nil
-	}
 
 	if len(constraints) == 0 {
 		return false, fmt.Errorf("empty constraints in VERS range")
